@@ -296,7 +296,12 @@ impl PartialEq for Value {
             (Self::List(av, asep, ab), Self::List(bv, bsep, bb)) => {
                 av == bv && asep == bsep && ab == bb
             }
-            (Self::Map(a), Self::Map(b)) => a == b,
+            (Self::Map(a), Self::Map(b)) => {
+                // The order of the keys does not matter.
+                a.len() == b.len()
+                    && a.iter()
+                        .all(|(k, v)| b.get(k).is_some_and(|bv| bv == v))
+            }
             (Self::UnaryOp(a, av), Self::UnaryOp(b, bv)) => {
                 a == b && av == bv
             }
